@@ -21,6 +21,7 @@ mod proj_c03;
 mod proj_c04;
 mod proj_c05;
 mod proj_c08;
+mod proj_c09;
 mod proj_c13;
 mod proj_c16;
 mod proj_c20;
@@ -115,6 +116,8 @@ fn run_case(engine: &str, f: &[&str]) -> CaseResult {
         ("preproc", ["pp", _fam, text, syms, exp @ ..]) if !exp.is_empty() => preproc::run_pp(text, syms, &exp.join(" ")),
         ("preproc", ["multi", fam, files, syms, exp @ ..]) if !exp.is_empty() => preproc::run_multi(fam, files, syms, &exp.join(" ")),
         ("comments", ["lex", _fam, lines, exp]) => comments::run_lex(lines, exp),
+        ("comments", ["lexloc", _fam, lines, exp]) => comments::run_lexloc(lines, exp),
+        ("comments", ["docloc", _fam, lines, exp]) => comments::run_docloc(lines, exp),
         ("comments", ["doc", _fam, lines, exp]) => comments::run_doc(lines, exp, false),
         ("comments", ["docm", _fam, lines, exp]) => comments::run_doc(lines, exp, true),
         ("files", ["tree", _fam, tree, argv, exp]) => files::run_tree(tree, argv, exp),
